@@ -11,13 +11,19 @@ Mirrors (Python ↔ Lean)
   invalidate their caches).
 * `ga/operators/mutation.py` `TestCaseMutation.mutate` ↔ `Tc.mutate`, `TestSuiteMutation.mutate` ↔ `Suite.mutate`;
   `ga/operators/crossover.py` `splice_test_case_chromosomes` ↔ `Tc.splice`, `splice_test_suite_chromosomes`
-  + `SinglePointRelativeCrossOver.cross_over` ↔ `xoverSuite`; `TestSuiteChromosome.add/delete/set_test_case_chromosome`.
+  + `SinglePointRelativeCrossOver.cross_over` ↔ `xoverSuite`; `TestCaseChromosome.cross_over` / `TestSuiteChromosome.cross_over`
+  called directly with arbitrary positions ↔ `crossTc` / `crossSuite`; `TestSuiteChromosome.add/delete/set_test_case_chromosome`.
 
 The *content* of a test case is an opaque identifier (`Content`, the interned source text; `0` = the empty
 test case, `size() == 0`).  What the test factory does to the statements is not modelled: a mutation is
 described by its *effect* (`MutEff`: which sub-steps ran, what each returned, the content after each).
 Deterministic fitness / coverage functions are a parameter `Sem R` (pure functions of the execution
 result `R`; a test case's result is determined by its content, a suite's by the list of its members' results).
+
+Fitness values are non-negative finite floats; the model holds them *exactly* as `Nat` multiples of
+`2^-60` (`1.0 = 2^60` units), so that values far below any absolute tolerance (`2^-60 ≈ 8.7e-19`) are ordinary
+values of the model and "the fitness is zero" is an exact statement (`isCloseZero`).  Split positions of the
+direct `cross_over(other, position1, position2)` calls are arbitrary naturals (`0`, `size`, `> size` included).
 
 `Ver` selects the code version: `Ver.repo` is /repo with the two proposed C12 repairs
 (proposed_fixes/C12-*.diff; this is what the driver runs), `Ver.orig` the unrepaired code (only used by the
@@ -70,6 +76,13 @@ structure Sem (R : Type) where
 /-- `compute_is_covered` agrees with "fitness is zero" (property C10; `_compute_fitness` relies on it) -/
 def Sem.Consistent (S : Sem R) : Prop := ∀ f r, S.isCov f r = (S.fit f r == 0)
 
+/-- `math.isclose(v, 0.0)` of `_compute_fitness` with the default tolerances (`rel_tol = 1e-09`, `abs_tol = 0.0`):
+`abs(v - 0.0) <= max(rel_tol * max(abs(v), abs(0.0)), abs_tol)`, on exact non-negative values `v <= v / 10^9` -/
+def isCloseZero (v : Nat) : Bool := decide (v * 1000000000 ≤ v)
+
+/-- the same call with an absolute tolerance `abs_tol = tol` (NOT what the code does; only in `_cex`) -/
+def isCloseZeroAbs (tol v : Nat) : Bool := decide (v * 1000000000 ≤ v) || decide (v ≤ tol)
+
 structure Cache where
   funcs : List Func := []
   covFuncs : List Func := []
@@ -93,7 +106,7 @@ def Cache.has (c : Cache) : Kind → Func → Bool
 
 /-- body of the three `_compute_*` loops once the value has been computed from result `r` -/
 def Cache.store (S : Sem R) (c : Cache) : Kind → Func → R → Cache
-  | .fit, f, r => { c with fitC := upsert f (S.fit f r) c.fitC, isC := upsert f (S.fit f r == 0) c.isC }
+  | .fit, f, r => { c with fitC := upsert f (S.fit f r) c.fitC, isC := upsert f (isCloseZero (S.fit f r)) c.isC }
   | .isCov, f, r => { c with isC := upsert f (S.isCov f r) c.isC }
   | .cov, f, r => { c with covC := upsert f (S.cov f r) c.covC }
 
@@ -374,6 +387,12 @@ inductive Op
   | mutateSuite (s : Nat) (e : SuiteMutEff)
   /-- `SinglePointRelativeCrossOver` on two suites with split positions `p1`, `p2` -/
   | xoverSuite (s t p1 p2 : Nat)
+  /-- `tcs[i].cross_over(tcs[j].clone(), position1, position2)` called directly (any positions):
+  `e = some c` = offspring accepted -/
+  | crossTc (i j : Nat) (e : Option Content)
+  /-- `suites[s].cross_over(suites[t].clone(), p1, p2)` called directly: any positions (`0`, `size`, beyond),
+  any sizes (empty suites), `s = t` allowed (the other parent is a clone) -/
+  | crossSuite (s t p1 p2 : Nat)
   | addFit (r : Ref) (f : Func)
   | addCov (r : Ref) (f : Func)
   | invalidate (r : Ref)
@@ -453,6 +472,14 @@ def step (S : Sems) (V : Ver) (w : World) : Op → World × Out
       else if a.tests.length < 2 || b.tests.length < 2 then (w, .unit)
       else ({ w with suites := (w.suites.set s (a.splice b.tests p1 p2)).set t (b.splice a.tests p2 p1) }, .unit)
     | _, _ => (w, .err .badRef)
+  | .crossTc i j e =>
+    match w.tcs[i]?, w.tcs[j]? with
+    | some ti, some _ => ({ w with tcs := w.tcs.set i (ti.splice e) }, .unit)
+    | _, _ => (w, .err .badRef)
+  | .crossSuite s t p1 p2 =>
+    match w.suites[s]?, w.suites[t]? with
+    | some a, some b => ({ w with suites := w.suites.set s (a.splice b.tests p1 p2) }, .unit)
+    | _, _ => (w, .err .badRef)
   | .addFit r f => onCache w r (·.addFit f)
   | .addCov r f => onCache w r (·.addCov f)
   | .invalidate r => onCache w r (·.invalidate)
@@ -531,15 +558,23 @@ def AllOk (S : Sems) (V : Ver) : World → List Op → Prop
 
 /-! ## Concrete deterministic functions used by the driver and the harness (`harness/c12.py`) -/
 
+/-- the float `v`, `v / 4` or `v * 2**-60` (magnitude class `m % 3`) in units of `2^-60`: whole numbers,
+quarters and values below every absolute tolerance -/
+def mag (m v : Nat) : Nat :=
+  match m % 3 with
+  | 0 => v * 2 ^ 60
+  | 1 => v * 2 ^ 58
+  | _ => v
+
 def tcSem : Sem Content where
-  fit f c := (c * (f + 2) + f) % 5
+  fit f c := mag (c + f) ((c * (f + 2) + f) % 5)
   cov f c := (c + 2 * f) % 5
-  isCov f c := (c * (f + 2) + f) % 5 == 0
+  isCov f c := mag (c + f) ((c * (f + 2) + f) % 5) == 0
 
 def suSem : Sem (List Content) where
-  fit f cs := (cs.sum + f * cs.length + f) % 7
+  fit f cs := mag (cs.sum + f) ((cs.sum + f * cs.length + f) % 7)
   cov f cs := (cs.sum + 3 * f + cs.length) % 5
-  isCov f cs := (cs.sum + f * cs.length + f) % 7 == 0
+  isCov f cs := mag (cs.sum + f) ((cs.sum + f * cs.length + f) % 7) == 0
 
 def stdSems : Sems := ⟨tcSem, suSem⟩
 
